@@ -1626,3 +1626,600 @@ func init() {
 		Gen:  c06ManyGroups,
 	})
 }
+
+// ---- statement headers followed by unbraced bodies ---------------------------------------------
+//
+// A parenthesised header (`if (…)`, `while (…)`, `for (…;…;…)`, `for (x in …)`, `for (x, i in …)`,
+// `match (…)`) ends at its `)`, and `else` ends at the word: the statement that follows starts a
+// NEW expression even when its first token also has an infix or postfix meaning (`++ -- - + ( [ /`).
+// Oracle (implementation only): `HEADER BODY` and `HEADER { BODY }` give the same AST once the one
+// block node is taken out (parse), and the same output (run).
+
+type c06HdrBodyT struct {
+	text  string
+	class string // first token class: incr decr minus plus group array regex not dollar string literal keyword ident block match
+	needs string // "", "loop" (break/continue), "fn" (return)
+	infix bool   // the first token also has an infix/postfix meaning
+}
+
+var c06HdrParseBodies = []c06HdrBodyT{
+	{"++y", "incr", "", true}, {"++y.k", "incr", "", true}, {"++y[0]", "incr", "", true},
+	{"--y", "decr", "", true}, {"--o.k", "decr", "", true},
+	{"-y", "minus", "", true}, {"-y.k + 1", "minus", "", true}, {"-1", "minus", "", true}, {"- y * 2", "minus", "", true}, {"-f(y)", "minus", "", true},
+	{"+y", "plus", "", true}, {"+1", "plus", "", true}, {"+f(y).k", "plus", "", true},
+	{"(o).k = 2", "group", "", true}, {"(f)(1)", "group", "", true}, {"(y)++", "group", "", true}, {"(y)", "group", "", true},
+	{"(y + 1) * 2", "group", "", true}, {"((y)).k", "group", "", true}, {"(o).k += 1", "group", "", true}, {"(y) = 3", "group", "", true}, {"(o)[0] = (1)", "group", "", true},
+	{"[1,2].length()", "array", "", true}, {"[y][0]", "array", "", true}, {"[]", "array", "", true}, {"[y, z].push(1)", "array", "", true}, {"[[1]][0][0]", "array", "", true},
+	{"/re/ ~ s", "regex", "", true}, {"/a+/", "regex", "", true}, {"/x/ ~ s && y", "regex", "", true},
+	{"!y", "not", "", false}, {"!!y", "not", "", false}, {"!(y)", "not", "", false},
+	{"$", "dollar", "", false}, {"$.a = 1", "dollar", "", false}, {"$[0]", "dollar", "", false}, {"$index", "dollar", "", false}, {"$.a.b", "dollar", "", false},
+	{"\"str\"", "string", "", false}, {"'s'.length()", "string", "", false}, {"\"a\" + y", "string", "", false},
+	{"1", "literal", "", false}, {"1.5.floor()", "literal", "", false}, {"true", "literal", "", false}, {"null", "literal", "", false},
+	{"print y", "keyword", "", false}, {"print", "keyword", "", false}, {"print -y", "keyword", "", false}, {"print (y), z", "keyword", "", false},
+	{"return", "keyword", "fn", false}, {"return y", "keyword", "fn", false}, {"return -y", "keyword", "fn", false}, {"return (y)", "keyword", "fn", false},
+	{"next", "keyword", "", false}, {"exit", "keyword", "", false}, {"break", "keyword", "loop", false}, {"continue", "keyword", "loop", false},
+	{"y = 1", "ident", "", false}, {"y", "ident", "", false}, {"f(1)", "ident", "", false}, {"y++", "ident", "", false}, {"y.k = 2", "ident", "", false},
+	{"y += 1", "ident", "", false}, {"y[0]", "ident", "", false}, {"y.push(1)", "ident", "", false}, {"y--", "ident", "", false},
+	{"{ y }", "block", "", false}, {"{ }", "block", "", false}, {"{ ++y }", "block", "", false}, {"{ -y\n (z) }", "block", "", false},
+	{"match (y) { 1 => 2 }", "match", "", false}, {"match (y) { 1, 2 => -y, 3 => { ++y } }", "match", "", false},
+}
+
+var c06HdrParseExprs = []string{
+	"x", "x", "f(x)", "f()", "o.k", "x.length()", "((x))", "(x)", "x + 1", "x < 3", "x && y", "(x) + (y)", "x * (y + 1)", "(x++)", "x--", "(x)--",
+	"a[0]", "a[(i)]", "!x", "-x", "x is number", "[1,2]", "\"s\"", "/re/ ~ s", "x = y", "(x = y)", "$", "$.a", "f((x))", "match (x) { 1 => 2 }",
+	"(x).k", "x.f((1))", "(((x) - 1))", "x ~ /a)/", "'('", "f(x)(y)", "a[0][(1)]", "-(x)", "(x) is number",
+}
+
+// c06HdrHeader writes one header of the given kind; the condition expressions come from exprs.
+// kinds: if while for3 forin forin2 else. ws = 0: `if (E)`, 1: `if(E)`, 2: `if ( E )`.
+func c06HdrHeader(r *rand.Rand, kind string, exprs []string, ws int) string {
+	e := pick(r, exprs)
+	open, cl := " (", ")"
+	switch ws {
+	case 1:
+		open = "("
+	case 2:
+		open, cl = " ( ", " )"
+	}
+	switch kind {
+	case "if":
+		return "if" + open + e + cl
+	case "while":
+		return "while" + open + e + cl
+	case "for3":
+		pre := pick(r, []string{"i = 0", "(i = 0)", "i = (0)", "i", "i = f(0)"})
+		cond := pick(r, []string{"i < 3", "(i < 3)", "i < (3)", e, "i < f(3)"})
+		post := pick(r, []string{"i++", "(i++)", "i += 1", "i = (i + 1)", "++i", "(i)++", "i = f(i)", "i--"})
+		return "for" + open + pre + "; " + cond + "; " + post + cl
+	case "forin":
+		return "for" + open + pick(r, []string{"v", "x"}) + " in " + pick(r, []string{"a", "(a)", "f(a)", "o.k", "[1, 2]", "a[0]", "((a))", "o.f()", e}) + cl
+	case "forin2":
+		return "for" + open + pick(r, []string{"v, j", "x,i", "v ,j"}) + " in " + pick(r, []string{"a", "(a)", "f(a)", "o.k", "[1, 2]", "a[0]", "((a))", "o.f()", e}) + cl
+	case "else":
+		then := pick(r, []string{"z = 1 ", "z = 1\n", "{ z = 1 } ", "{ z = 1 }\n", "print z; ", "print z\n", "(z) ", "z++ ", "++z\n  ", "f(z) ", "-z\n", "[z] "})
+		return "if" + open + e + cl + " " + then + "else"
+	}
+	return "if (x)"
+}
+
+// c06HdrUnwrap removes the block node that starts at byte offset off from a raw AST dump.
+func c06HdrUnwrap(dump string, off int) (string, bool) {
+	key := fmt.Sprintf("(block %d", off)
+	at := -1
+	for from := 0; ; {
+		i := strings.Index(dump[from:], key)
+		if i < 0 {
+			break
+		}
+		i += from
+		end := i + len(key)
+		if end < len(dump) && (dump[end] == ' ' || dump[end] == ')') {
+			at = i
+			break
+		}
+		from = end
+	}
+	if at < 0 {
+		return "", false
+	}
+	depth, end := 0, -1
+	for j := at; j < len(dump); j++ {
+		if dump[j] == '(' {
+			depth++
+		} else if dump[j] == ')' {
+			depth--
+			if depth == 0 {
+				end = j
+				break
+			}
+		}
+	}
+	if end < 0 {
+		return "", false
+	}
+	inner := strings.TrimPrefix(dump[at+len(key):end], " ")
+	return dump[:at] + inner + dump[end+1:], true
+}
+
+func c06HdrStrip(s string) string {
+	s = c06PosRe1.ReplaceAllString(s, "($1 $2 ")
+	return c06PosRe2.ReplaceAllString(s, "($1")
+}
+
+// c06HdrBracedCheck: first = the answer for `HEADER { BODY }` (the `{` at byte offset off),
+// self = the answer for `HEADER BODY`.
+func c06HdrBracedCheck(off int, braced, text string) func(first, self Resp) string {
+	return func(first, self Resp) string {
+		if first["class"] != "ok" || self["class"] != "ok" {
+			if first["class"] != self["class"] {
+				return fmt.Sprintf("%q is answered %s (%s) but with the body in braces, %q, %s (%s)", text, self["class"], self["msg"], braced, first["class"], first["msg"])
+			}
+			return ""
+		}
+		un, ok := c06HdrUnwrap(string(first.Bytes("dump")), off)
+		if !ok {
+			return fmt.Sprintf("the AST of %q has no block at byte %d: %s", braced, off, short(string(first.Bytes("dump"))))
+		}
+		want, got := c06HdrStrip(un), c06HdrStrip(string(self.Bytes("dump")))
+		if want != got {
+			return fmt.Sprintf("the header does not end at its `)`: %q parses to %s but %q, the same with the body in braces, to %s without the block node", text, short(got), braced, short(want))
+		}
+		return ""
+	}
+}
+
+var c06HdrKinds = []string{"if", "while", "for3", "forin", "forin2", "else"}
+
+// separators between the header and the body
+var c06HdrSeps = []string{" ", "\n    ", "", "\n\n", " \n\t"}
+
+// c06HdrWrap puts a statement into a program: a BEGIN rule, a main rule, a rule with a pattern or
+// a function; before/after are whole statements.
+func c06HdrWrap(r *rand.Rand, needs string, before, stmt, after string) (prefix, suffix string) {
+	pre := ""
+	if before != "" {
+		pre = before + "\n  "
+	}
+	post := ""
+	if after != "" {
+		post = "\n  " + after
+	}
+	if needs == "fn" || (needs == "" && chance(r, 0.15)) {
+		return "function g(y, z) {\n  " + pre, post + "\n}\nBEGIN { g(1, 2) }\n"
+	}
+	switch r.Intn(3) {
+	case 0:
+		return "BEGIN {\n  " + pre, post + "\n}\n"
+	case 1:
+		return "{ " + pre, post + " }\n"
+	}
+	return "$.a > 1 {\n  " + pre, post + "\n}\nEND { print y }\n"
+}
+
+func c06HdrParseOne(r *rand.Rand, emit func(Case), id, kind string, header string, b c06HdrBodyT, row string) {
+	needs := b.needs
+	if needs == "loop" && (kind == "if" || kind == "else") {
+		// break / continue need a loop around
+		header = pick(r, []string{"while (q) ", "for (k in a) "}) + header
+		needs = ""
+	} else if needs == "loop" {
+		needs = ""
+	}
+	before := pick(r, []string{"", "", "q = 1", "print q", "q = (1)", "q = f(1)"})
+	// what follows on the next line must not start with a token that continues the body's expression
+	after := pick(r, []string{"", "", "print z", "z = 2", "if (z) print", "return2 = 1", "z++", "{ z }", "next", "while (z) z--"})
+	pfx, sfx := c06HdrWrap(r, needs, before, "", after)
+	bracedText := pfx + header + " { " + b.text + " }" + sfx
+	off := len(pfx) + len(header) + 1
+	group := "hdr:" + id
+	meta := func(text, variant string) map[string]string {
+		return map[string]string{"program": text, "header": header, "body": b.text, "body starts with": b.class, "variant": variant, "row": row}
+	}
+	emit(Case{ID: id + "/braced", Req: "parse " + hxs(bracedText), Fields: c06ParseFields, Meta: meta(bracedText, "braced"), Group: group, NonTrivial: c06DumpNT})
+	seps := []string{" ", "\n    ", pick(r, c06HdrSeps)}
+	if kind == "else" && seps[2] == "" {
+		seps[2] = " "
+	}
+	for si, sep := range seps {
+		if si == 2 && (sep == seps[0] || sep == seps[1]) {
+			continue
+		}
+		if sep == "" && c06Wordish(b.text[:1]) && kind == "else" {
+			continue
+		}
+		text := pfx + header + sep + b.text + sfx
+		emit(Case{ID: fmt.Sprintf("%s/sep%d", id, si), Req: "parse " + hxs(text), Fields: c06ParseFields, Meta: meta(text, fmt.Sprintf("separator %q", sep)),
+			Group: group, GroupCheck: c06HdrBracedCheck(off, bracedText, text), NonTrivial: c06DumpNT})
+	}
+	// the statement after the body separated by `;` (only where the body does not end in `}`), and
+	// lines after the body that start with the same kind of token (decided by the model alone)
+	if !strings.HasSuffix(b.text, "}") && chance(r, 0.5) {
+		text := pfx + header + " " + b.text + "; " + pick(r, c06HdrParseBodies[:48]).text + sfx
+		emit(Case{ID: id + "/semi", Req: "parse " + hxs(text), Fields: c06ParseFields, Meta: meta(text, "body; statement"), NonTrivial: c06DumpNT})
+	}
+	if chance(r, 0.3) {
+		text := pfx + header + " " + b.text + "\n  " + pick(r, c06HdrParseBodies[:48]).text + sfx
+		emit(Case{ID: id + "/nextline", Req: "parse " + hxs(text), Fields: c06ParseFields, Meta: meta(text, "body, then a line starting with an operator-like token"), NonTrivial: c06DumpNT})
+	}
+}
+
+func c06HdrBodiesParse(r *rand.Rand, tier string, emit func(Case)) {
+	n := 0
+	// the ill-formed stream: a parenthesis dropped or doubled, the body missing, `;` for a body, an
+	// else without its if or after `;`, a match without its `{`: class and position vs the model
+	for rep := 0; rep < tierN(tier, 1, 5); rep++ {
+		for _, b := range c06HdrParseBodies {
+			if b.needs != "" {
+				continue
+			}
+			for _, kind := range []string{pick(r, c06HdrKinds), pick(r, c06HdrKinds[:5])} {
+				n++
+				h := c06HdrHeader(r, kind, c06HdrParseExprs, r.Intn(3))
+				sep := pick(r, c06HdrSeps[:2])
+				var stmt, how string
+				switch r.Intn(10) {
+				case 0:
+					stmt, how = strings.Replace(h, "(", "", 1)+sep+b.text, "first `(` dropped"
+				case 1:
+					i := strings.LastIndex(h, ")")
+					stmt, how = h[:i]+h[i+1:]+sep+b.text, "last `)` dropped"
+				case 2:
+					stmt, how = h+")"+sep+b.text, "`)` doubled"
+				case 3:
+					stmt, how = h+pick(r, []string{";", " ;", "\n  ;"})+sep+b.text, "`;` for a body"
+				case 4:
+					stmt, how = h, "no body"
+				case 5:
+					stmt, how = "else"+sep+b.text, "else without if"
+				case 6:
+					stmt, how = h+sep+b.text+pick(r, []string{"; else ", ";\n  else "})+pick(r, c06HdrParseBodies[:48]).text, "else after `;`"
+				case 7:
+					stmt, how = "match (x)"+sep+b.text, "match without `{`"
+				case 8:
+					stmt, how = strings.Replace(h, "(", "((", 1)+sep+b.text, "`(` doubled"
+				default:
+					stmt, how = h+sep+b.text+sep+pick(r, []string{")", "else", "}", "in a", "=> 1"}), "stray token after the body"
+				}
+				pfx, sfx := c06HdrWrap(r, "", pick(r, []string{"", "q = 1"}), "", pick(r, []string{"", "print z"}))
+				text := pfx + stmt + sfx
+				emit(Case{ID: fmt.Sprintf("hp:%d/bad", n), Req: "parse " + hxs(text), Fields: c06ParseFields,
+					Meta: map[string]string{"program": text, "header": h, "body": b.text, "body starts with": b.class, "variant": how, "row": "ill-formed: " + how}})
+			}
+		}
+	}
+	// every header kind with every body
+	for rep := 0; rep < tierN(tier, 1, 6); rep++ {
+		for _, kind := range c06HdrKinds {
+			for _, b := range c06HdrParseBodies {
+				n++
+				c06HdrParseOne(r, emit, fmt.Sprintf("hp:%d", n), kind, c06HdrHeader(r, kind, c06HdrParseExprs, r.Intn(3)), b, kind+" / "+b.class)
+			}
+		}
+	}
+	// every header expression in front of the operator-like bodies
+	for rep := 0; rep < tierN(tier, 1, 4); rep++ {
+		for _, e := range c06HdrParseExprs {
+			for _, kind := range []string{"if", "while", "else", "forin", "for3"} {
+				n++
+				b := pick(r, c06HdrParseBodies[:30])
+				c06HdrParseOne(r, emit, fmt.Sprintf("hp:%d", n), kind, c06HdrHeader(r, kind, []string{e}, r.Intn(3)), b, "header expression / "+kind)
+			}
+		}
+	}
+	// nested headers: header header body, if-else chains with unbraced bodies
+	for k := 0; k < tierN(tier, 400, 4000); k++ {
+		n++
+		b := pick(r, c06HdrParseBodies)
+		depth := 1 + r.Intn(3)
+		inner := b.text
+		needs := b.needs
+		for d := 0; d < depth; d++ {
+			kind := pick(r, c06HdrKinds)
+			if needs == "loop" && (kind != "if" && kind != "else") {
+				needs = ""
+			}
+			h := c06HdrHeader(r, kind, c06HdrParseExprs, r.Intn(3))
+			sep := pick(r, []string{" ", " ", "\n      ", ""})
+			if sep == "" && kind == "else" {
+				sep = " "
+			}
+			inner = h + sep + inner
+			if kind == "if" && chance(r, 0.4) {
+				eb := pick(r, c06HdrParseBodies)
+				if eb.needs == "" {
+					inner += pick(r, []string{" else ", "\n    else ", "\n    else\n      "}) + eb.text
+				}
+			}
+		}
+		if needs == "loop" {
+			inner = "while (q) " + inner
+		}
+		nb := c06HdrBodyT{text: inner, class: "nested header", needs: needs}
+		if needs == "loop" {
+			nb.needs = ""
+		}
+		kind := pick(r, c06HdrKinds)
+		c06HdrParseOne(r, emit, fmt.Sprintf("hp:%d", n), kind, c06HdrHeader(r, kind, c06HdrParseExprs, r.Intn(3)), nb, fmt.Sprintf("nested headers, %d deep", depth+1))
+	}
+	// match: the token after `)` is `{` (same line, next line, no blank); a match as a statement
+	// followed by lines that start with every kind of token
+	for k := 0; k < tierN(tier, 300, 2500); k++ {
+		n++
+		e := pick(r, c06HdrParseExprs)
+		sep := pick(r, []string{" ", " ", "", "\n  ", " \n"})
+		arms := pick(r, []string{"1 => 2", "1, 2 => -y, 3 => { ++y }", "'a' => (y), x => [y]", "1 => --y", "(1) => (2)", "1 => 2,"})
+		m := pick(r, []string{"match (", "match(", "match ( "}) + e + ")" + sep + "{ " + arms + " }"
+		b := pick(r, c06HdrParseBodies)
+		var stmt string
+		switch r.Intn(5) {
+		case 0:
+			stmt = m + "\n  " + b.text
+		case 1:
+			stmt = "r = " + m + "\n  " + b.text
+		case 2:
+			stmt = "if (q) " + m + "\n  " + b.text
+		case 3:
+			stmt = "if (" + m + ")" + pick(r, c06HdrSeps) + b.text
+		default:
+			stmt = "r = " + m + pick(r, []string{" + 1", ".k", "[0]", " is number", ""}) + "\n  print r"
+			b.needs = ""
+		}
+		needs := b.needs
+		if needs == "loop" {
+			stmt = "while (q) { " + stmt + " }"
+			needs = ""
+		}
+		pfx, sfx := c06HdrWrap(r, needs, "", "", pick(r, []string{"", "print z"}))
+		text := pfx + stmt + sfx
+		emit(Case{ID: fmt.Sprintf("hp:%d/match", n), Req: "parse " + hxs(text), Fields: c06ParseFields, NonTrivial: c06DumpNT,
+			Meta: map[string]string{"program": text, "body": b.text, "body starts with": b.class, "row": "match header"}})
+	}
+}
+
+// ---- executed: header + unbraced body over a fixed state ------------------------------------------
+
+const c06HdrRunInput = `{"a": 7, "k": [1, 2]}` + "\n"
+
+const c06HdrRunFuncs = "function f(v) { c = c + 1; return v }\nfunction dec() { n = n - 1; return n }\n"
+const c06HdrRunInit = "  n = 3; y = 5; z = 0; c = 0; o = {k: 1}; a = [1, 2, 3]; w = [4, 5]; s = 'abc'; b = 1; t = 0; u = 0\n"
+const c06HdrRunShow = "n, y, z, c, o.k, a.length(), w.length(), b, t, u, i"
+
+// bodies that leave the loop variables n, i, x, j, w alone
+var c06HdrRunBodies = []c06HdrBodyT{
+	{"++y", "incr", "", true}, {"++o.k", "incr", "", true}, {"++a[0]", "incr", "", true},
+	{"--y", "decr", "", true}, {"--o.k", "decr", "", true},
+	{"-y", "minus", "", true}, {"-f(y)", "minus", "", true}, {"-y + f(1)", "minus", "", true},
+	{"+y", "plus", "", true}, {"+f(y)", "plus", "", true},
+	{"(o).k = 2", "group", "", true}, {"(f)(1)", "group", "", true}, {"(y)++", "group", "", true}, {"(y)", "group", "", true}, {"(y) = 9", "group", "", true},
+	{"(o).k += 5", "group", "", true}, {"(y + f(1)) * 2", "group", "", true}, {"((z)) = f(4)", "group", "", true}, {"(a)[1] = 8", "group", "", true},
+	{"[1,2].length()", "array", "", true}, {"[f(1), 2].length()", "array", "", true}, {"[a][0].push(4)", "array", "", true}, {"[y][0]", "array", "", true},
+	{"/b/ ~ s", "regex", "", true}, {"/b/ ~ f(s)", "regex", "", true},
+	{"!y", "not", "", false}, {"!f(1)", "not", "", false},
+	{"$", "dollar", "", false}, {"$.a = 1", "dollar", "", false}, {"$.a += 1", "dollar", "", false}, {"$.k.push(3)", "dollar", "", false},
+	{"\"str\"", "string", "", false}, {"'s'.length()", "string", "", false},
+	{"1", "literal", "", false}, {"true", "literal", "", false},
+	{"print y", "keyword", "", false}, {"print", "keyword", "", false}, {"print -y", "keyword", "", false}, {"print (y), z", "keyword", "", false}, {"print [y][0]", "keyword", "", false},
+	{"return", "keyword", "fn", false}, {"return -y", "keyword", "fn", false}, {"return (y)", "keyword", "fn", false}, {"return [y]", "keyword", "fn", false},
+	{"next", "keyword", "", false}, {"exit", "keyword", "", false}, {"break", "keyword", "loop", false}, {"continue", "keyword", "loop", false},
+	{"y = 1", "ident", "", false}, {"y", "ident", "", false}, {"f(1)", "ident", "", false}, {"y++", "ident", "", false}, {"a.push(1)", "ident", "", false}, {"y -= 2", "ident", "", false},
+	{"{ ++y }", "block", "", false}, {"{ y = 1; z = 2 }", "block", "", false}, {"{ -y; (z) = 3 }", "block", "", false},
+	{"match (y) { 5 => f(1) }", "match", "", false}, {"match (y) { 5 => ++z, 6 => --z }", "match", "", false},
+	{"if (b) ++y", "nested header", "", false}, {"if (z) ++y\n    else --y", "nested header", "", false}, {"if (b) if (z) ++y else --y", "nested header", "", false},
+	{"while (u < 2) ++u", "nested header", "", false}, {"while (u++ < 2) --y", "nested header", "", false}, {"for (m = 0; m < 2; m++) ++y", "nested header", "", false},
+	{"for (v in a) z += v", "nested header", "", false}, {"for (v, m in a) -f(m)", "nested header", "", false}, {"for (v in [1, 2]) (o).k += v", "nested header", "", false},
+	{"if (b) (o).k = 4", "nested header", "", false}, {"if (z) -y else (f)(2)", "nested header", "", false}, {"while (u++ < 3) if (u > 1) break", "nested header", "", false},
+}
+
+// conditions, true and false in the initial state
+var c06HdrRunConds = []string{
+	"b", "z", "f(b)", "f(z)", "o.k", "o.k - 1", "((b))", "(z)", "b + 1", "y - 5", "y > 3", "y * (z + 1)", "z * (y + 1)", "(b) && (y)", "a.length()", "a[0]", "a[(0)]",
+	"!z", "!b", "s ~ /b/", "(t++)", "(++t)", "t++ < 1", "t++", "f((b))", "$.a", "($)", "y is number", "(y is string)", "'abc'", "''", "-z", "-(b)", "[z][0]", "(o).k",
+	"match (y) { 5 => 1 }", "match (y) { 5 => 0 }", "z = b", "(z = 0)",
+}
+
+// loop headers that end whatever the body does to y, z, c, o, a, s, b, t, u, $
+var c06HdrRunWhile = []string{"n-- > 0", "(n--)", "f(n--)", "(n--) > 0", "n-- > (0)", "dec()", "(dec())", "dec() > 0", "f(dec())", "n-- && b", "(n -= 1) > 0", "n--"}
+var c06HdrRunFor3 = []string{
+	"i = 0; i < 3; i++", "i = 0; i < 3; i += 1", "i = 3; i; i--", "i = 0; (i < 3); (i++)", "(i = 0); i < (3); i = (i + 1)", "i = 0; f(i) < 3; f(i++)",
+	"i = 0; i < w.length(); ++i", "i = 2; i >= 0; --i", "i = f(0); i < 2; (i)++", "i = 0; i < 2; i = f(i + 1)",
+}
+var c06HdrRunIn = []string{"w", "(w)", "[4, 5]", "f(w)", "((w))", "[w][0]", "[[4], [5, 6]][1]", "$.k", "($.k)"}
+
+// decrement bodies for the loops whose condition only tests n
+var c06HdrRunDecBodies = []c06HdrBodyT{
+	{"--n", "decr", "", true}, {"n--", "ident", "", false}, {"(n)--", "group", "", true}, {"n -= 1", "ident", "", false}, {"n = n - 1", "ident", "", false}, {"{ --n }", "block", "", false},
+	{"-dec()", "minus", "", true}, {"+dec()", "plus", "", true}, {"(dec)()", "group", "", true}, {"(dec())", "group", "", true}, {"[dec()].length()", "array", "", true},
+	{"!dec()", "not", "", false}, {"'' + dec()", "string", "", false}, {"print dec()", "keyword", "", false}, {"dec()", "ident", "", false}, {"/b/ ~ dec()", "regex", "", true},
+	{"$.a = dec()", "dollar", "", false}, {"(n) = n - 1", "group", "", true}, {"(n) -= 1", "group", "", true}, {"--n\n", "decr", "", true},
+	{"if (n) --n", "nested header", "", false}, {"if (z) ++y else --n", "nested header", "", false}, {"match (n) { 0 => 0, n => --n }", "match", "", false},
+}
+var c06HdrRunDecConds = []string{"n", "(n)", "n > 0", "((n))", "f(n)", "n > (0)", "(n) > 0", "n && b", "[n][0]", "!!n", "(n > 0)", "n is number && n", "!(n == 0)", "n * (1 + 1)"}
+
+func c06HdrRunOne(r *rand.Rand, emit func(Case), id, header string, b c06HdrBodyT, inLoop bool, row string) {
+	inFn := b.needs == "fn" || chance(r, 0.15)
+	if b.needs == "loop" && !inLoop {
+		header = "while (u++ < 2) " + header
+	}
+	mk := func(stmt string) string {
+		var sb strings.Builder
+		sb.WriteString(c06HdrRunFuncs)
+		if inFn {
+			sb.WriteString("function h() {\n  " + stmt + "\n  print 'in h', " + c06HdrRunShow + "\n  return 'h'\n}\n")
+			sb.WriteString("{\n" + c06HdrRunInit + "  print h()\n")
+		} else {
+			sb.WriteString("{\n" + c06HdrRunInit + "  " + stmt + "\n")
+		}
+		sb.WriteString("  print 'after', " + c06HdrRunShow + ", $.a, $.k.length()\n}\nEND { print 'end', " + c06HdrRunShow + " }\n")
+		return sb.String()
+	}
+	files := []File{{Name: "in.json", Data: []byte(c06HdrRunInput)}}
+	group := "hdrrun:" + id
+	braced := mk(header + " { " + b.text + " }")
+	fields := []string{"class", "out", "line", "col"}
+	meta := func(prog, variant string) map[string]string {
+		return map[string]string{"program": prog, "header": header, "body": b.text, "body starts with": b.class, "variant": variant, "row": row}
+	}
+	emit(Case{ID: id + "/braced", Req: RunReq(braced, nil, files, false), Fields: fields, Meta: meta(braced, "braced"), Group: group})
+	seps := []string{" ", "\n    "}
+	if !strings.HasSuffix(header, "else") && chance(r, 0.3) {
+		seps = append(seps, "")
+	}
+	for si, sep := range seps {
+		prog := mk(header + sep + b.text)
+		emit(Case{ID: fmt.Sprintf("%s/sep%d", id, si), Req: RunReq(prog, nil, files, false), Fields: fields, Meta: meta(prog, fmt.Sprintf("separator %q", sep)),
+			Group: group, GroupFields: []string{"class", "out"}})
+	}
+	if !strings.HasSuffix(strings.TrimSpace(b.text), "}") && chance(r, 0.3) {
+		// `;` and a second statement of the same kind after the body
+		prog := mk(header + " " + strings.TrimSpace(b.text) + "; " + pick(r, c06HdrRunBodies[:35]).text)
+		emit(Case{ID: id + "/semi", Req: RunReq(prog, nil, files, false), Fields: fields, Meta: meta(prog, "body; statement")})
+	}
+}
+
+func c06HdrBodiesRun(r *rand.Rand, tier string, emit func(Case)) {
+	n := 0
+	header := func(kind string) (string, bool) {
+		ws := r.Intn(3)
+		open, cl := " (", ")"
+		switch ws {
+		case 1:
+			open = "("
+		case 2:
+			open, cl = " ( ", " )"
+		}
+		switch kind {
+		case "if":
+			return "if" + open + pick(r, c06HdrRunConds) + cl, false
+		case "while":
+			return "while" + open + pick(r, c06HdrRunWhile) + cl, true
+		case "for3":
+			return "for" + open + pick(r, c06HdrRunFor3) + cl, true
+		case "forin":
+			return "for" + open + "x in " + pick(r, c06HdrRunIn) + cl, true
+		case "forin2":
+			return "for" + open + pick(r, []string{"x, j", "x,j"}) + " in " + pick(r, c06HdrRunIn) + cl, true
+		}
+		then := pick(r, []string{"z = 7 ", "z = 7\n  ", "{ z = 7 } ", "{ z = 7 }\n  ", "print 'then'; ", "print 'then'\n  ", "(z) = 7 ", "++z\n  ", "f(z) ", "-z\n  ", "[z] "})
+		return "if" + open + pick(r, c06HdrRunConds) + cl + " " + then + "else", false
+	}
+	for rep := 0; rep < tierN(tier, 1, 6); rep++ {
+		for _, kind := range c06HdrKinds {
+			for _, b := range c06HdrRunBodies {
+				n++
+				h, loop := header(kind)
+				c06HdrRunOne(r, emit, fmt.Sprintf("hr:%d", n), h, b, loop, kind+" / "+b.class)
+			}
+		}
+		// every condition in front of an operator-like body
+		for _, e := range c06HdrRunConds {
+			for _, h := range []string{"if (" + e + ")", "if (!(" + e + ")) t = 5 else", "if(" + e + ")"} {
+				n++
+				c06HdrRunOne(r, emit, fmt.Sprintf("hr:%d", n), h, pick(r, c06HdrRunBodies[:25]), false, "condition shapes")
+			}
+		}
+		// loops that only test n, with every way of writing the decrement as the body
+		for _, e := range c06HdrRunDecConds {
+			for _, b := range c06HdrRunDecBodies {
+				if chance(r, 0.5) {
+					continue
+				}
+				n++
+				h := pick(r, []string{"while (", "while(", "while ( ", "for (i = 0; ", "for (i = (0); "}) + e
+				if strings.HasPrefix(h, "for") {
+					h += pick(r, []string{"; i++)", "; (i++))", "; i = (i + 1))"})
+				} else {
+					h += ")"
+				}
+				c06HdrRunOne(r, emit, fmt.Sprintf("hr:%d", n), h, b, true, "loop tests n / body decrements")
+			}
+		}
+		// nested headers
+		for k := 0; k < 150; k++ {
+			n++
+			h1, l1 := header(pick(r, c06HdrKinds))
+			h2, l2 := header(pick(r, []string{"if", "if", "else", "forin", "forin2"}))
+			c06HdrRunOne(r, emit, fmt.Sprintf("hr:%d", n), h1+pick(r, []string{" ", "\n    "})+h2, pick(r, c06HdrRunBodies), l1 || l2, "two headers")
+		}
+		// a match statement, then a line starting with each kind of token (model decides)
+		for _, b := range c06HdrRunBodies {
+			if b.needs != "" {
+				continue
+			}
+			n++
+			m := pick(r, []string{"match (y) { 5 => f(1) }", "match (y) { 5 => f(10), 6 => 2 }", "r = match (y) { 5 => 10 }", "match (f(y)) { 4 => 1 }", "if (b) match (y) { 5 => ++z }"})
+			prog := c06HdrRunFuncs + "{\n" + c06HdrRunInit + "  " + m + pick(r, []string{"\n  ", "\n\n  "}) + b.text + "\n  print 'after', r, " + c06HdrRunShow + "\n}\n"
+			files := []File{{Name: "in.json", Data: []byte(c06HdrRunInput)}}
+			emit(Case{ID: fmt.Sprintf("hr:%d/match", n), Req: RunReq(prog, nil, files, false), Fields: []string{"class", "out", "line", "col"},
+				Meta: map[string]string{"program": prog, "body": b.text, "body starts with": b.class, "row": "match statement, then a line"}})
+		}
+	}
+}
+
+// programs with the output worked out by hand
+var c06HdrKnown = [][2]string{
+	{"n = 3; while (n) --n; print n", "0\n"},
+	{"n = 3; while (n) { --n } print n", "0\n"},
+	{"x = 1; if (x) ++y; print x, y", "1 1\n"},
+	{"x = 0; if (x) ++y; print x, y", "0 <unknown>\n"},
+	{"o = {k: 1}; f = 7; if (f) (o).k = 2; print o.k", "2\n"},
+	{"y = 4; if (1) -y; print y", "4\n"},
+	{"y = 4; if (1) +y; print y", "4\n"},
+	{"n = 3; while (n) (n)--; print n", "0\n"},
+	{"n = 3; while (n > 0)\n --n\n print n", "0\n"},
+	{"for (i = 0; i < 3; i++) ++y; print i, y", "3 3\n"},
+	{"for (x in [1, 2]) --y; print y", "-2\n"},
+	{"o = {k: 0}; for (x, i in [5, 6]) (o).k = x + i; print o.k", "7\n"},
+	{"if (0) y = 1 else ++y; print y", "1\n"},
+	{"if (0) y = 1\n else\n --y\n print y", "-1\n"},
+	{"y = 1; if (y) [y].length(); print y", "1\n"},
+	{"s = 'b'; y = 2; if (y) /b/ ~ s; print y", "2\n"},
+	{"if (1) if (0) ++x else --x; print x", "-1\n"},
+	{"b = 2; if (1) while (b) --b; print b", "0\n"},
+	{"y = 3; if (y) !y; print y", "3\n"},
+	{"x = 2; y = 1; if ((x)) --y; print x, y", "2 0\n"},
+	{"x = 2; y = 1; if (x - 2) --y; print x, y", "2 1\n"},
+	{"x = 2; y = 1; while (x--) ++y; print x, y", "-1 3\n"},
+	{"x = 2; y = 1; while ((x--)) -y; print x, y", "-1 1\n"},
+	{"a = [1]; if (a) [2][0]; print a.length()", "1\n"},
+	{"n = 2; if (n) print -n; print n", "-2\n2\n"},
+	{"z = match (1) { 1 => 5 }\n print z", "5\n"},
+	{"y = 1; z = match (1) { 1 => 5 }\n -y\n print z, y", "4 1\n"},
+	{"x = 1; if (x)\n ++y\n print x, y", "1 1\n"},
+	{"x = 0; if (x)\n ++y\n print x, y", "0 <unknown>\n"},
+	{"x = 0; if (x)\n\n (y) = 2\n print x, y", "0 <unknown>\n"},
+	{"for (x in [1, 2])\n --y\n print y", "-2\n"},
+	{"for (i = 0; i < 2; i++)\n (o) = i\n print o", "1\n"},
+	{"n = 2; while (n)\n [n--]\n print n", "0\n"},
+}
+
+func c06HdrBodiesKnown(r *rand.Rand, tier string, emit func(Case)) {
+	for i, kv := range c06HdrKnown {
+		for j, wrap := range [][2]string{{"BEGIN { ", " }\n"}, {"BEGIN {\n  ", "\n}\n"}, {"function g() { ", " }\nBEGIN { g() }\n"}} {
+			prog, want := wrap[0]+kv[0]+wrap[1], kv[1]
+			emit(Case{ID: fmt.Sprintf("hk:%d:%d", i, j), Req: RunReq(prog, nil, nil, false), Fields: []string{"class", "out", "line", "col"},
+				Meta: map[string]string{"program": prog, "expected": want, "row": "known output"},
+				Oracle: func(i Resp) string {
+					if i["class"] != "ok" || string(i.Bytes("out")) != want {
+						return fmt.Sprintf("%q must print %q: %s %q (%s)", prog, want, i["class"], string(i.Bytes("out")), i["msg"])
+					}
+					return ""
+				}})
+		}
+	}
+}
+
+func init() {
+	register(Family{
+		Name: "header-bodies-parse", Prop: "C06",
+		Rule: "a parenthesised statement header ends at its `)` (and `else` at the word): if / while / for(;;) / for (x in) / for (x, i in) / else / match headers over ~40 header expressions (identifier, call, member, nested groups, binary, a group or postfix operator last, a `)` inside a string or regex) and three blank styles, followed by an UNBRACED body starting with every kind of token, in particular those that also have an infix or postfix meaning (++ -- - + ( [ /), and ! $ strings literals keywords identifiers blocks match; body on the same line, on the next line, without a blank; nested headers and dangling else; `;` + statement and operator-like lines after the body; AST vs model, and (oracle) AST of `HEADER BODY` = AST of `HEADER { BODY }` without the block node",
+		Gen:  c06HdrBodiesParse,
+	})
+	register(Family{
+		Name: "header-bodies-run", Prop: "C06",
+		Rule: "the same headers and unbraced bodies executed over a fixed state (counters, an object, arrays, $) with the whole state printed afterwards: conditions true and false, loops that end by their own header whatever the body is, loops that only test n with the decrement written as every kind of body (--n, (n)--, -dec(), (dec)(), [dec()], ...), two headers in a row, a match statement followed by each kind of line; output vs model, and (group) output of `HEADER BODY` = output of `HEADER { BODY }`; a table of programs with the output worked out by hand (oracle)",
+		Gen: func(r *rand.Rand, tier string, emit func(Case)) {
+			c06HdrBodiesKnown(r, tier, emit)
+			c06HdrBodiesRun(r, tier, emit)
+		},
+	})
+}
